@@ -21,7 +21,7 @@ of unsigned 32/64-bit +,-,*,<<,~ and unary minus are reduced mod 2^32 / 2^64; co
 (-(2^62)), which the theorems exclude.
 Trusted: clang's AST, this translator, the subset semantics above.
 """
-import argparse
+import argparse, re
 import json
 import os
 import subprocess
@@ -388,6 +388,41 @@ class Fn:
               "Definition %s : Z :=\n" % self.name
         return "".join(self.aux) + hdr + txt + ".\n"
 
+    def translate_locals(self, names):
+        """translate the initialisers of the named local variables of the function (the formula
+        fragments of a larger function that is not translatable as a whole): one Definition
+        <fn>__<var> per variable, parameters = the integer locals/parameters it mentions, then the
+        values it reads through pointers"""
+        decls = []
+
+        def walk(n):
+            if isinstance(n, dict):
+                if n.get("kind") in ("ParmVarDecl", "VarDecl") and "id" in n:
+                    decls.append(n)
+                for c in n.get("inner", []) or []:
+                    walk(c)
+        walk(self.node)
+        order = []
+        for d in decls:
+            self.ids[d["id"]] = d["name"]
+            if d["name"] not in order:
+                order.append(d["name"])
+        out = ""
+        for v in names:
+            cand = [d for d in decls if d["name"] == v and d.get("init") and d.get("inner")]
+            if len(cand) != 1:
+                raise Refuse("%d initialised declarations of local %s in %s" % (len(cand), v, self.name))
+            if not is_int_type(qual(cand[0])):
+                raise Refuse("local %s is not an integer" % v)
+            self.extra = []
+            body = self.expr(cand[0]["inner"][0])
+            used = [x for x in order if x != v and re.search(r"(?<![A-Za-z0-9_])%s(?![A-Za-z0-9_])" % re.escape(x), body)
+                    and x not in self.extra]
+            allp = used + self.extra
+            out += "\n(* %s, local %s : parameters %s *)\n" % (self.name, v, ", ".join(allp) or "-")
+            out += "Definition %s__%s %s : Z :=\n%s.\n" % (self.name, v, " ".join("(%s : Z)" % q for q in allp), body)
+        return out
+
     def stmts_top(self, body):
         # returns inside loops produce `CRet e`; at top level they produce `e`.  We translate loop
         # bodies with a patched ReturnStmt handler by temporarily switching a flag.
@@ -426,13 +461,19 @@ def main():
     ap.add_argument("--fn", action="append", required=True)
     ap.add_argument("--out", required=True)
     ap.add_argument("--fuel", default="70%nat")
+    ap.add_argument("--locals", action="append", default=[],
+                    help="fn:var1,var2 — translate the initialisers of these locals of fn instead of the whole function")
     a = ap.parse_args()
     try:
         out = PRELUDE % (a.file + " : " + ", ".join(a.fn))
         known = []
+        loc = dict((x.split(":")[0], x.split(":")[1].split(",")) for x in a.locals)
         for fn in a.fn:
             node = clang_ast(a.repo, a.build, a.file, fn)
             f = Fn(node, set(known), a.fuel)
+            if fn in loc:
+                out += f.translate_locals(loc[fn])
+                continue
             txt = f.translate()
             if "CRET_IN_LOOP" in txt:
                 raise Refuse("return inside a nested loop")
